@@ -412,6 +412,7 @@ HttpResponse Http::request(HttpRequest& request)
 	if (hasPort)
 		title << ':' << url.port;
 	request._command = title;
+	request._headersSent = false; // a request object used again sends its request line and headers again
 
 	if (!request.write())
 	{
